@@ -87,6 +87,13 @@ def evaluate(binp, runner, tag, hid, ops, with_spec=True):
     if rc != 0 or impl is None:
         res["problems"].append("harness replay failed rc=%s: %s" % (rc, out[-300:]))
         return res
+    if tag == "J":
+        # contract-visible layer: implementation against the independent reference only
+        if "DISAGREE" in impl or "READ-LEN" in impl or "KEY-LEN" in impl or "error" in impl.split(";"):
+            res["problems"].append("impl-flag")
+        if orc is not None and not orc.get("ok", True):
+            res["problems"].append("oracle")
+        return res
     model = run_model(runner, "model", line).get(hid)
     res["model"] = model
     if model != impl:
@@ -165,8 +172,8 @@ def correspondence(ctx, binp, runner, args, tag, what, max_report=3, with_spec=T
         return {"histories": 0}
     d, stats, order = parse_lines(out)
     text = "".join("%s %s %s\n" % (tag, hid, d[tag][hid]) for t, hid in order if t == tag)
-    model = run_model(runner, "model", text)
-    spec = run_model(runner, "spec", text) if (with_spec and tag != "P") else None
+    model = run_model(runner, "model", text) if tag != "J" else None
+    spec = run_model(runner, "spec", text) if (with_spec and tag == "H") else None
     nbad = 0
     seen = set()
     nontrivial = set()
@@ -179,14 +186,14 @@ def correspondence(ctx, binp, runner, args, tag, what, max_report=3, with_spec=T
         ops_total += h.count(";") + 1 if h else 0
         key = c.digest(h)
         seen.add(key)
-        if any(x and x[0] not in "xL-E" for x in impl.split(";")):
+        if any(x and x[0] not in "xL-E" and x != "skip" for x in impl.split(";")):
             nontrivial.add(key)
         problems = []
-        if model.get(hid) != impl:
+        if model is not None and model.get(hid) != impl:
             problems.append("impl!=model")
         if spec is not None and spec.get(hid) != model.get(hid):
             problems.append("model!=spec")
-        if "!" in impl or "PANIC" in impl:
+        if "!" in impl or "PANIC" in impl or "DISAGREE" in impl:
             problems.append("impl-flag")
         if hid in d["O"]:
             try:
